@@ -230,7 +230,7 @@ inline void generated(std::vector<Built>& out, int variants_per_setter) {
 #define API_PAIR(Q, T, N, A, R) { typedef decltype(setter_arg(&Q::N)) Arg; int ns = nsamples<Arg>(); \
     for (int k = 0; k < ns && k < variants_per_setter; ++k) { PDU* o = make_default((Q*)0); if (!o) break; \
         try { static_cast<Q*>(o)->N(sample<Arg>(k)); const std::type_info* ti = &typeid(*o); add(out, std::string(#T "." #N "#") + std::to_string(k), wrap(o), ti); } \
-        catch (exception_base&) { delete o; } } }
+        catch (std::exception& e_) { if (!mc::tins_exc(e_)) throw; delete o; } } }
 #include "api.inc"
 #undef API_PAIR
 }
